@@ -685,6 +685,9 @@ func (c *Client) onResponse(f *Frame) {
 	r.Resp = f
 	n := c.Direct[r.RID]
 	r.NAtSend = n
+	if r.Action == "subscribe" || r.Action == "get" {
+		s.oracleAfresh(c, r, f)
+	}
 	switch r.Action {
 	case "version":
 		if f.Error == nil {
@@ -701,6 +704,16 @@ func (c *Client) onResponse(f *Frame) {
 			}
 		}
 	case "subscribe":
+		// C08.d: the per-resource limit of direct subscriptions
+		if c.Tainted == "" && !c.Fuzzy[r.RID] && !c.provisionalRID(r.RID, r) {
+			s.stat("oracle.C08.d", 1)
+			if f.Error == nil && n >= directLimit {
+				c.violate("C08", "d", "over-limit", "client %s: subscribe %s succeeded although the client already has %d direct subscriptions to it (limit %d)", c.Name, r.RID, n, directLimit)
+			}
+			if f.Error != nil && f.Error.Code == "system.subscriptionLimitExceeded" && n < directLimit {
+				c.violate("C08", "d", "limit-below", "client %s: subscribe %s refused with system.subscriptionLimitExceeded although the client has only %d direct subscriptions to it", c.Name, r.RID, n)
+			}
+		}
 		if f.Error == nil {
 			var rs resourceSet
 			json.Unmarshal(f.Result, &rs)
